@@ -74,7 +74,12 @@ def threshold_otsu(data: np.ndarray, nbins: int = 256) -> float:
     the SciKit Image threshold_otsu implementation:
     https://github.com/scikit-image/scikit-image/blob/70fa904eee9ef370c824427798302551df57afa1/skimage/filters/thresholding.py#L312
     """
-    counts, bin_edges = np.histogram(data.flat, bins=nbins)
+    try:
+        counts, bin_edges = np.histogram(data.flat, bins=nbins)
+    except ValueError:
+        # the range of the data is too small to be resolved by `nbins` bins, so the
+        # data is constant for all practical purposes
+        return float(np.min(data) / 2 + np.max(data) / 2)
     bin_centers = (bin_edges[1:] + bin_edges[:-1]) / 2
 
     # class probabilities for all possible thresholds
